@@ -8,6 +8,7 @@ import (
 	"path/filepath"
 	"sort"
 	"strings"
+	"time"
 
 	badgerdb "github.com/dgraph-io/badger/v4"
 	clover "github.com/ostafen/clover/v2"
@@ -27,6 +28,7 @@ type Impl struct {
 	xs      *XStore
 	db      *clover.DB
 	files   map[string]string // export name -> path
+	stuck   bool              // an operation timed out: the handle is unusable
 }
 
 func openStore(backend, dir string) (store.Store, error) {
@@ -65,27 +67,45 @@ func (im *Impl) open() {
 
 // Reset closes the database and starts from an empty one.
 func (im *Impl) Reset() {
-	if im.db != nil {
-		im.db.Close()
+	if im.db != nil && !im.stuck {
+		im.closeBounded()
 		os.RemoveAll(im.dir)
 	}
+	im.stuck = false
 	im.n++
 	im.dir = filepath.Join(im.root, fmt.Sprintf("%s-%d", im.backend, im.n))
 	im.open()
 }
 
-func (im *Impl) Close() { im.db.Close() }
+// closeBounded closes the handle, giving up after a few seconds: a leaked transaction (a defect under
+// test) would make bbolt's Close wait forever.
+func (im *Impl) closeBounded() {
+	if im.db == nil || im.stuck {
+		return
+	}
+	done := make(chan struct{})
+	db := im.db
+	go func() { db.Close(); close(done) }()
+	select {
+	case <-done:
+	case <-time.After(5 * time.Second):
+		im.stuck = true
+	}
+}
+
+func (im *Impl) Close() { im.closeBounded() }
 
 // Reopen closes (if needed) and opens the same directory again; not meaningful for badger-mem.
 func (im *Impl) Reopen() {
-	im.db.Close()
+	im.closeBounded()
+	if im.stuck {
+		return
+	}
 	im.open()
 }
 
 func (im *Impl) Destroy() {
-	if im.db != nil {
-		im.db.Close()
-	}
+	im.closeBounded()
 	os.RemoveAll(im.dir)
 }
 
@@ -148,8 +168,27 @@ type ExecResult struct {
 	TxN   int
 }
 
-// Exec runs one protocol operation. faultAt = -1 for none.
-func (im *Impl) Exec(op J, faultAt int, tracing bool) (res ExecResult) {
+// OpDeadline bounds every public call: an operation that does not return is reported as "timeout"
+// (C04: no wedge, C20: never blocks forever).
+var OpDeadline = 30 * time.Second
+
+// Exec runs one protocol operation under a deadline. faultAt = -1 for none.
+func (im *Impl) Exec(op J, faultAt int, tracing bool) ExecResult {
+	if im.stuck {
+		return ExecResult{Line: "timeout (handle wedged by an earlier operation)"}
+	}
+	ch := make(chan ExecResult, 1)
+	go func() { ch <- im.execGuarded(op, faultAt, tracing) }()
+	select {
+	case r := <-ch:
+		return r
+	case <-time.After(OpDeadline):
+		im.stuck = true
+		return ExecResult{Line: "timeout operation did not return within " + OpDeadline.String()}
+	}
+}
+
+func (im *Impl) execGuarded(op J, faultAt int, tracing bool) (res ExecResult) {
 	im.xs.StartOp(faultAt, tracing)
 	defer func() {
 		if r := recover(); r != nil {
